@@ -299,6 +299,19 @@ for file, fl, fns, nbytes in ((V128, U0, (("_skinny128_parallel_encrypt_vec128",
         d = pe(file, fn, f"{nm}_store_u0", "seg", 1, fl, P, ["output"], rows); d["veclanes"] = "explicit"; vu.append(d)
 mods.append({"name": "VecU0Pieces", "entries": vu})
 
+# ---------------------------------------------------------------- vector back end: Mantis parallel ECB, 128-bit vectors (8 blocks)
+VM = "src/mantis-parallel-vec128.c"
+mods.append({"name": "VecMantisLeaf", "entries": [e(VM, "mantis_sbox", "vmp_sbox", [], 4, {"d": LW}, "direct"),
+                                                   {"file": VM, "table": "rc", "lean": "vmp_rc", "flags": []}]})
+vp = []
+P = {"output": {"bytes": 64, "out": True}, "input": {"bytes": 64}, "tweak": {"bytes": 64}, "ks": {"bytes": 36}}
+d = pe(VM, "_mantis_parallel_crypt_vec128", "vmp_pre", "seg", 0, [], P, ["state", "tk", "k1"]); d["veclanes"] = "explicit"; d["windows"] = {"r": 8}; vp.append(d)
+d = pe(VM, "_mantis_parallel_crypt_vec128", "vmp_fwd", "loop", 0, [], P, ["state", "tk"], ["state", "tk", "k1", "r_0"]); d["windows"] = {"r": 8}; vp.append(d)
+d = pe(VM, "_mantis_parallel_crypt_vec128", "vmp_mid", "seg", 1, [], P, ["state", "k1"], ["state", "k1"]); d["windows"] = {"r": 8}; vp.append(d)
+d = pe(VM, "_mantis_parallel_crypt_vec128", "vmp_bwd", "loop", 1, [], P, ["state", "tk"], ["state", "tk", "k1", "r_m1"]); d["windows"] = {"r": 8}; vp.append(d)
+d = pe(VM, "_mantis_parallel_crypt_vec128", "vmp_post", "seg", 2, [], P, ["output"], ["state", "tk", "k1", "ks"]); d["veclanes"] = "explicit"; d["windows"] = {"r": 8}; vp.append(d)
+mods.append({"name": "VecMantisPieces", "imports": ["VecMantisLeaf"], "entries": vp})
+
 # ---------------------------------------------------------------- counters
 mods.append({"name": "CounterLeaf", "entries": [
     e(S128, "skinny128_inc_counter", "skinny128_inc_counter", [], None, {"counter": {"bytes": 16}}),
